@@ -864,6 +864,22 @@ class TaskScenario(ScenarioData):
             old_total = res_scenario.slotSecondsUsed.get(self.currentSlotIdx, booked_seconds)
             res_scenario.slotSecondsUsed[self.currentSlotIdx] = old_total - booked_seconds + seconds_into_slot
 
+        # The other members of a team worked for the same instants: release their tails too
+        for member in self._selectedResources or []:
+            if member is resource:
+                continue
+            m_scenario = member.data[self.scenarioIdx] if member.data else None
+            if m_scenario is None:
+                continue
+            for i, (task, secs) in enumerate(m_scenario.slotTaskUsage.get(self.currentSlotIdx, [])):
+                if task == self.property:
+                    actual = min(seconds_into_slot, secs)
+                    if secs - actual > 0:
+                        m_scenario.slotTaskUsage[self.currentSlotIdx][i] = (self.property, actual)
+                        m_total = m_scenario.slotSecondsUsed.get(self.currentSlotIdx, secs)
+                        m_scenario.slotSecondsUsed[self.currentSlotIdx] = m_total - secs + actual
+                    break
+
         return precise_end, seconds_into_slot
 
     def _calculatePreciseEndTime(self, required_effort: float, effort_before_slot: float, forward: bool) -> datetime:
